@@ -37,9 +37,11 @@ def cond_holds(cond, found_conds):
     if cond[0] == "byte":
         _, pos, value, msb, lsb = cond
         for d, f in found_conds:
-            if d and d[0] == "bytes" and d[1] == pos and f == ("eq", value):
-                if (msb is None or d[2] == msb) and (lsb is None or d[4] == lsb):
+            if d and d[0] == "bytes" and d[1] == pos and (msb is None or d[2] == msb) and (lsb is None or d[4] == lsb):
+                if f == ("eq", value):
                     return True
+                if value == 1 and d[1] == d[3] and d[2] == d[4] and f[0] == "ne" and 0 in f[1]:
+                    return True         # a one-bit field that is not 0
         return False
     if cond[0] == "param":
         _, name, op, v = cond
@@ -74,6 +76,15 @@ def match(reference, found, site_conds, reads, allowed):
                     for c in f[3]:
                         if not cond_holds(c, site_conds.get(key, ())):
                             missing.append((rf, "the table is applied there without the dispatch condition %r" % (c,)))
+            elif f[0] == "blob":
+                keys = [("blob", f[1], f[2], ex) for ex in f[3] if ("blob", f[1], f[2], ex) in found]
+                if not keys:
+                    there = sorted(repr(x[2:]) for x in found if x[0] == "blob" and x[1] == f[1])
+                    missing.append((rf, "%r is %s" % (f[1], ("taken from " + "; ".join(there)) if there else "not reported as a byte string")))
+                else:
+                    for c in f[4]:
+                        if not any(cond_holds(c, site_conds.get(k, ())) for k in keys):
+                            missing.append((rf, "%r is taken from there without the condition %r" % (f[1], c)))
             elif f[0] == "read":
                 if ("read", f[1], f[2]) not in reads:
                     missing.append((rf, "that field is not read"))
@@ -189,7 +200,18 @@ def describe_fact(f):
         return "loop %d advancing by %s" % (f[1], show_stride(f[2]))
     if f[0] == "read":
         return "a %d-byte field read at %s" % (f[2], show_pos(f[1]))
+    if f[0] == "blob":
+        return "%r = the bytes from %s, %s%s" % (f[1], show_pos(f[2]), " or ".join(show_extent(x) for x in f[3]),
+                                                (" when " + " and ".join(show_cond(c) for c in f[4])) if f[4] else "")
     return repr(f)
+
+
+def show_extent(x):
+    if x[0] == "const":
+        return "%d bytes" % x[1]
+    if x[0] == "to":
+        return "up to %s + %s" % (show_pos(x[1]), show_len(x[2]))
+    return repr(x)
 
 
 def show_pos(p):
